@@ -13,6 +13,8 @@ import (
 	"strings"
 	"sync"
 	"sync/atomic"
+	"verif/lib/schemagen"
+	"verif/lib/typedmon"
 
 	cid "github.com/ipfs/go-cid"
 	"github.com/ipld/go-ipld-prime/codec/dagcbor"
@@ -81,6 +83,8 @@ type c20Pool struct {
 	ops     []c20Op
 	want    []uint64
 	lazyObj int
+	// freshObj: a type system nobody has touched before the concurrent phase (-1: none)
+	freshObj int
 }
 
 func digestVal(v model.Val, issues []obs.Issue) uint64 {
@@ -274,6 +278,69 @@ func c20Build(rng *fw.RNG) *c20Pool {
 			return fw.Mix(digestNode(n, false), fw.HashString(string(raw)), fw.HashString(l2.Binary()))
 		})
 	}
+	// a FRESH type system: built here, never used before the goroutines run (in cold mode), and then bound by all
+	// of them at once — bindnode.Prototype(nil, T) for every type, an inhabitant built and read at both levels,
+	// the schema types' own accessors. State that a schema type, the type system or the binding machinery fills
+	// lazily on first use is written concurrently here and nowhere else (round-3 seeds C20-8: union members
+	// cached inside the shared type on first call; C20-9: a process-wide Go-type inference memo whose
+	// in-progress marker doubles as the cycle detector — no data race, a spurious panic).
+	p.freshObj = -1
+	if fts := schemagen.Gen(rng, schemagen.Opts{Types: 5 + rng.Intn(4)}); fts != nil {
+		if lib, err := schemagen.ToLibrary(fts); err == nil {
+			type inh struct {
+				name string
+				rv   model.Val
+			}
+			var ins []inh
+			for _, t := range fts.Types {
+				if t.Name[0] != 'T' {
+					continue
+				}
+				tv := schemagen.GenValue(rng, fts, t, 0)
+				if rv, err := fts.ReprOf(t, tv); err == nil {
+					ins = append(ins, inh{t.Name, rv})
+				}
+			}
+			fobj := objN
+			objN++
+			p.freshObj = fobj
+			add("bind", fobj, func() uint64 {
+				h := uint64(0)
+				for _, in := range ins {
+					func() {
+						defer func() {
+							if r := recover(); r != nil {
+								h = fw.Mix(h, fw.HashString(fmt.Sprint("panic: ", r)))
+							}
+						}()
+						typ := lib.TypeByName(in.name)
+						pr := bindnode.Prototype(nil, typ)
+						o := typedmon.Feed(pr.Representation(), in.rv)
+						if !o.Accepted {
+							h = fw.Mix(h, fw.HashString("rejected:"+in.name))
+							return
+						}
+						h = fw.Mix(h, digestNode(o.Node, true), digestNode(typedmon.Repr(o.Node), true))
+						switch tt := typ.(type) {
+						case *schema.TypeUnion:
+							for _, m := range tt.Members() {
+								h = fw.Mix(h, fw.HashString(string(m.Name())))
+							}
+						case *schema.TypeStruct:
+							for _, f := range tt.Fields() {
+								h = fw.Mix(h, fw.HashString(f.Name()), fw.HashString(string(f.Type().Name())))
+							}
+						case *schema.TypeMap:
+							h = fw.Mix(h, fw.HashString(string(tt.KeyType().Name())), fw.HashString(string(tt.ValueType().Name())))
+						case *schema.TypeList:
+							h = fw.Mix(h, fw.HashString(string(tt.ValueType().Name())))
+						}
+					}()
+				}
+				return h
+			})
+		}
+	}
 	// bindings and builders from shared prototypes / types / registry
 	obj := objN
 	objN++
@@ -423,7 +490,10 @@ func (c20) RunCase(c *fw.Ctx, rng *fw.RNG, batch, i int) {
 	var nops int64
 	var hot []int
 	hotObjs := map[int]bool{pool.lazyObj: true}
-	for len(hotObjs) < 4 {
+	if pool.freshObj >= 0 {
+		hotObjs[pool.freshObj] = true
+	}
+	for len(hotObjs) < 5 {
 		hotObjs[pool.ops[rng.Intn(len(pool.ops))].obj] = true
 	}
 	for k, op := range pool.ops {
